@@ -194,7 +194,7 @@ theorem step2_preds (c : MergeCtx G E sm gs uf0 u v) (r : Nat) (hr : r < sm.n)
     refine ⟨ps, hpreds, hps_lt, ?_, ?_⟩
     · intro p hp hpr
       have := (rep1_eq_of_ne_u c hru).1 hpr
-      exact hinv.preds_noself r ps hr_rep hps p hp this.1
+      exact hinv.preds_noself r ps hr hr_rep hps p hp this.1
     · intro a ha
       constructor
       · rintro ⟨p, hp, hpa⟩
